@@ -36,6 +36,7 @@ rm -f "$eb" "$ef"
 rb=2
 bx=()
 if [ "$tier" = quick ] && [ -z "$only" ] && [[ " $* " != *" --scale "* ]]; then bx+=(--scale "${VERIF_QUICK_SCALE:-4}"); fi
+if [ "$tier" = thorough ] && [ -z "$only" ] && [[ " $* " != *" --scale "* ]]; then bx+=(--scale "${VERIF_THOROUGH_SCALE:-8}"); fi
 if [ "$tier" = thorough ] && [ -z "$only" ] && [ -z "$VERIF_NO_FUZZ" ] && [ $built = 1 ]; then
   seed="${VERIF_SEED:-1}"
   for ((i=0; i<${#args[@]}; i++)); do [ "${args[$i]}" = "--seed" ] && seed="${args[$((i+1))]}"; done
